@@ -21,22 +21,27 @@ TRUSTED = [
     "plain state (the source never re-enters the cache); Waker::wake as setting a per-consumer flag",
     "the futures waker contract is the property's own hypothesis: a pending fused source keeps only the last registered waker and "
     "wakes it when it becomes ready (step SourceReady); past its end it returns None for ever",
-    "`mod cache` is private to fluent-fallback: the real handles are driven through Bundles / Localization, so one scheduled step of the "
-    "correspondence run is one poll of a request future (= poll_next repeated until Pending / answered / end; theorem "
-    "C17_request_refines shows every such run is a run of the handle-level transition system the theorems quantify over)",
+    "`fluent_fallback::cache` is public only under --cfg fluent_rs_verif (hook commit 14ed6ff in /repo; lib/engine.py sets the cfg for every "
+    "harness build): the handle-level batches poll the real AsyncCacheStream / CacheIter handles one poll_next / next per step; the "
+    "request-level batches go through Bundles / Localization (one step = one poll of a request future = poll_next repeated until "
+    "Pending / answered / end; theorem C17_request_refines)",
 ]
 ASSUMPTIONS = [
     'the wrapped iterator / stream is fused (property quantifier); not fused: every consumer that reaches the end asks the source again',
     'no cancellation: a request that is waiting is not dropped (property quantifier)',
     'fairness for C17_progress: a runnable request (not waiting, or woken) is eventually polled and a pending source eventually becomes ready',
 ]
-RULE = ('async: k concurrent format_value / format_values / format_messages futures of chosen fallback depths over a scripted source '
-        '(ready / pending / end), polled in a scripted order with own wakers, spurious polls included, then a fair drain; '
-        'bounded-exhaustive over all schedules to completion without no-op steps (quick: k<=2 requests x scripts of length<=4 x <=2 spurious '
-        'polls; thorough: k<=2 x script<=5 x <=2 spurious, k=3 x script<=3 x <=2 spurious, k=3 x script<=4 x <=1 spurious), every 5th/11th '
-        'also cut at a random prefix and finished by the fair drain, '
-        'plus random longer ones; sync: all short request sequences; via Bundles::new and via Localization::bundles. '
-        'non-trivial = a request was suspended at least once or the run is synchronous; distinct = distinct implementation outputs')
+RULE = ('handle level (hasync / hsync): one step = one poll_next of a named AsyncCacheStream (own waker, spurious polls included) or one '
+        'SourceReady, resp. one next() of a named CacheIter, over a scripted fused source that keeps only the latest waker, then the '
+        "model's fair scheduler as drain; bounded-exhaustive over ALL schedules until every handle is told None, without no-op fires "
+        '(quick: k=1 x script<=4 x <=2 spurious, k=2 x script<=3 x <=2 spurious, k=2 x script<=4 x <=1 spurious; thorough: k=2 x script<=4 x '
+        '<=2, k=3 x script<=2 x <=2, k=3 x script<=3 x <=1, k=3 x script=4 sampled every 23rd), all interleavings of <=2 (3) CacheIters over '
+        '<=3 items, random longer ones. '
+        'request level (async / sync): k concurrent format_value / format_values / format_messages futures of chosen fallback depths through '
+        'Bundles::new and Localization::bundles, polled in a scripted order with own wakers, then a fair drain; bounded-exhaustive over all '
+        'schedules to completion (quick: k<=2 requests x script<=4 x <=2 spurious; thorough: k<=2 x script<=5 x <=2, k=3 x script<=3 x <=2, '
+        'k=3 x script<=4 x <=1), every 5th/11th also cut at a random prefix and finished by the drain, all short sync request sequences, '
+        'random longer ones. non-trivial = a poll returned Pending or the run is synchronous; distinct = distinct implementation outputs')
 
 END = 99  # a key that no bundle has: the request walks to the end of the source
 
@@ -176,7 +181,196 @@ def exhaustive_async(k, lmax, spur, pick_via):
     return cases
 
 
-def generate(rng, tier):
+# ---- handle level (one step = one poll_next / next): reference simulation for the generators only ----
+
+class HSim:
+    def __init__(self, script, k):
+        self.script, self.pos, self.items, self.waiting, self.pw = script, 0, 0, None, []
+        self.curr, self.blocked, self.woken, self.fin = [0] * k, [False] * k, [False] * k, [False] * k
+
+    def copy(self):
+        t = HSim(self.script, len(self.curr))
+        t.pos, t.items, t.waiting, t.pw = self.pos, self.items, self.waiting, list(self.pw)
+        t.curr, t.blocked, t.woken, t.fin = list(self.curr), list(self.blocked), list(self.woken), list(self.fin)
+        return t
+
+    def poll(self, c):
+        self.woken[c] = False
+        if self.curr[c] < self.items:
+            self.curr[c] += 1
+            self.blocked[c] = False
+        elif self.curr[c] == self.items:
+            if self.pos < len(self.script) and self.script[self.pos] == 'p':
+                self.waiting = c
+                self.pw.append(c)
+                self.blocked[c] = True
+                return
+            for w in self.pw:
+                self.woken[w] = True
+            self.pw = []
+            self.curr[c] += 1
+            self.blocked[c] = False
+            if self.pos >= len(self.script):
+                self.fin[c] = True
+            else:
+                self.pos += 1
+                self.items += 1
+        else:
+            self.blocked[c] = False
+            self.fin[c] = True
+
+    def fire(self):
+        if self.waiting is not None:
+            self.woken[self.waiting] = True
+            self.waiting = None
+            self.pos += 1
+
+
+def hschedules(script, k, max_spurious):
+    """all handle-level schedules until every handle has been told None, without no-op fires, with at most
+    max_spurious spurious polls (of a handle that is waiting and not woken, or already finished)"""
+    out = []
+
+    def dfs(sim, sched, sp):
+        if all(sim.fin):
+            out.append(list(sched))
+            return
+        for c in range(k):
+            spur = sim.fin[c] or (sim.blocked[c] and not sim.woken[c])
+            if spur and sp >= max_spurious:
+                continue
+            t = sim.copy()
+            t.poll(c)
+            sched.append(c)
+            dfs(t, sched, sp + (1 if spur else 0))
+            sched.pop()
+        if sim.waiting is not None:
+            t = sim.copy()
+            t.fire()
+            sched.append('f')
+            dfs(t, sched, sp)
+            sched.pop()
+
+    dfs(HSim(script, k), [], 0)
+    return out
+
+
+def mk_hcase(mode, k, script, sched):
+    return sexp.dumps([b'c17', mode, k, [], [x.encode() for x in script], [x if isinstance(x, int) else b'f' for x in sched]])
+
+
+def exhaustive_hasync(k, lmax, spur, stride=1):
+    cases = []
+    n = 0
+    for L in range(0, lmax + 1):
+        for script in itertools.product('rp', repeat=L):
+            for sched in hschedules(script, k, spur):
+                n += 1
+                if n % stride == 0:
+                    cases.append(mk_hcase(b'hasync', k, script, sched))
+    return cases
+
+
+def hsync_histories(m, k, max_spurious):
+    """all interleavings of next() calls until every iterator has returned None (+ spurious calls after None)"""
+    out = []
+
+    def dfs(curr, fin, items, hist, sp):
+        if all(fin):
+            out.append(list(hist))
+            return
+        for i in range(k):
+            if fin[i]:
+                if sp >= max_spurious:
+                    continue
+                hist.append(i)
+                dfs(curr, fin, items, hist, sp + 1)
+                hist.pop()
+                continue
+            c2, f2, it2 = list(curr), list(fin), items
+            if curr[i] < items:
+                c2[i] += 1
+            else:
+                c2[i] += 1
+                if items < m:
+                    it2 += 1
+                else:
+                    f2[i] = True
+            hist.append(i)
+            dfs(c2, f2, it2, hist, sp)
+            hist.pop()
+
+    dfs([0] * k, [False] * k, 0, [], 0)
+    return out
+
+
+def generate_handle(rng, tier):
+    quick = tier == 'quick'
+    plan = [(1, 4, 2, 1), (2, 3, 2, 1), (2, 4, 1, 1)] if quick else [(1, 6, 3, 1), (2, 4, 2, 1), (3, 2, 2, 1), (3, 3, 1, 1)]
+    allc = []
+    for (k, lmax, spur, stride) in plan:
+        cases = exhaustive_hasync(k, lmax, spur, stride)
+        allc.append(cases)
+        yield ('exhaustive-handle-async-k%d-script%d-spurious%d' % (k, lmax, spur), cases)
+    if not quick:
+        # k = 3 x scripts of length 4: 3.8 million schedules even without spurious polls; every 23rd
+        yield ('sampled-handle-async-k3-script4', exhaustive_hasync_len(3, 4, 0, 23))
+    pref = []
+    for cases in allc:
+        for c in cases[::5 if quick else 11]:
+            x = sexp.loads(c)
+            if len(x[5]) >= 2:
+                x[5] = x[5][:rng.randrange(0, len(x[5]))]
+                pref.append(sexp.dumps(x))
+    yield ('handle-prefix-then-drain', pref)
+    cases = []
+    for k in range(0, 3 if quick else 4):
+        for m in range(0, 4):
+            for h in hsync_histories(m, k, 1 if k < 3 else 0):
+                cases.append(mk_hcase(b'hsync', k, 'r' * m, h))
+    yield ('exhaustive-handle-sync-k%d-items3' % (2 if quick else 3), cases)
+    cases = []
+    for _ in range(5000 if quick else 80000):
+        k = rng.randint(1, 5)
+        L = rng.randint(0, 10)
+        pp = rng.choice([0.2, 0.5, 0.8])
+        script = ['p' if rng.random() < pp else 'r' for _ in range(L)]
+        if rng.random() < 0.15:
+            m = script.count('r')
+            cases.append(mk_hcase(b'hsync', k, 'r' * m, [rng.randrange(k) for _ in range(rng.randint(0, 3 * (m + 2)))]))
+            continue
+        sim = HSim(script, k)
+        sched = []
+        for _ in range(rng.randint(0, 60)):
+            r = rng.random()
+            runnable = [c for c in range(k) if not sim.fin[c] and (not sim.blocked[c] or sim.woken[c])]
+            if r < 0.55 and runnable:
+                c = rng.choice(runnable)
+            elif r < 0.8:
+                c = rng.randrange(k)
+            else:
+                c = 'f'
+            sched.append(c)
+            if c == 'f':
+                sim.fire()
+            else:
+                sim.poll(c)
+        cases.append(mk_hcase(b'hasync', k, script, sched))
+    yield ('random-handle', cases)
+
+
+def exhaustive_hasync_len(k, L, spur, stride):
+    cases = []
+    n = 0
+    for script in itertools.product('rp', repeat=L):
+        for sched in hschedules(script, k, spur):
+            n += 1
+            if n % stride == 0:
+                cases.append(mk_hcase(b'hasync', k, script, sched))
+    return cases
+
+
+def generate_requests(rng, tier):
     quick = tier == 'quick'
     # ---- bounded-exhaustive, async: ALL schedules to completion (no no-op steps) ----------------------
     #   quick:    k <= 2 requests x scripts of length <= 4 x <= 2 spurious polls
@@ -240,6 +434,15 @@ def generate(rng, tier):
     yield ('random-long', cases)
 
 
+def generate(rng, tier):
+    # handle level (one step = one poll_next / next of a named handle: the LTS of Fallback/Cache.v) ...
+    for batch in generate_handle(rng, tier):
+        yield batch
+    # ... and request level (futures of Bundles / Localization: the glue of bundles.rs)
+    for batch in generate_requests(rng, tier):
+        yield batch
+
+
 # ---------------------------------------------------------------------------------------------
 # the property, checked on the implementation's output alone
 
@@ -288,6 +491,8 @@ def oracle(case, out):
     if b:
         return 'implementation panicked / harness failure: ' + b
     mode = c[1]
+    if mode in (b'hasync', b'hsync'):
+        return oracle_handle(c, o)
     reqs = [r[1:] for r in c[3]]
     if any(len(r) == 0 for r in reqs):
         # D18 (DESIGN.md section 6): a batch request with an EMPTY key list needs no bundle but pulls the first one.
@@ -393,6 +598,139 @@ def oracle(case, out):
     return None
 
 
+def oracle_handle(c, o):
+    """the same sentences at handle granularity: one step = one poll_next / next of a named handle"""
+    mode, k = c[1], c[2]
+    m = sum(1 for x in c[4] if x == b'r')
+    sched = c[5]
+    if mode == b'hsync':
+        if not (isinstance(o, list) and len(o) == 2 and len(o[0]) == len(sched) and len(o[1]) == k):
+            return 'malformed output'
+        got = [[] for _ in range(k)]
+        fin = [False] * k
+        calls = ln = 0
+        for i, r in zip(sched, o[0]):
+            res, c2, l2 = r[1], r[2], r[3]
+            if i >= k:
+                if (res, c2, l2) != (b'none', calls, ln):
+                    return 'next() on a handle that does not exist changed something'
+                continue
+            pos = len(got[i])
+            if fin[i]:
+                want, dc, dl = b'none', 0, 0
+            elif pos < ln:
+                want, dc, dl = [b'some', pos], 0, 0                  # cached: the iterator is not asked
+            elif ln < m:
+                want, dc, dl = [b'some', ln], 1, 1                   # pulled once, pushed once
+            else:
+                want, dc, dl = b'none', 1, 0
+            if res != want:
+                return 'iterator %d: expected %s, got %s (order / loss / duplicate)' % (i, sexp.dumps(want), sexp.dumps(res))
+            if c2 != calls + dc:
+                return 'iterator %d at position %d with %d cached: wrapped iterator asked %d times, expected %d' % (i, pos, ln, c2 - calls, dc)
+            if l2 != ln + dl:
+                return 'cache length %d, expected %d' % (l2, ln + dl)
+            if want == b'none':
+                fin[i] = True
+            else:
+                got[i].append(want[1])
+            calls, ln = c2, l2
+        if o[1] != got:
+            return 'harness bookkeeping mismatch'
+        return None
+    if not (isinstance(o, list) and len(o) == 3):
+        return 'malformed output'
+    steps, drain, final = o
+    if len(steps) != len(sched):
+        return 'expected %d step results, got %d' % (len(sched), len(steps))
+    trace = [(x if isinstance(x, int) else 'f', r) for x, r in zip(sched, steps)]
+    for d in drain:
+        trace.append((d[0] if isinstance(d[0], int) else 'f', d[1]))
+    got = [[] for _ in range(k)]
+    fin = [False] * k
+    blocked = [False] * k
+    woken = [False] * k
+    polls = readies = yielded = ln = 0
+    for who, r in trace:
+        tag = r[0]
+        newly = r[-5]
+        p2, r2, y2, l2 = r[-4], r[-3], r[-2], r[-1]
+        if l2 != y2:
+            return 'cache holds %d items but the source yielded %d: an item was not pushed exactly once' % (l2, y2)
+        if y2 > m:
+            return 'the source yielded %d items, it has only %d' % (y2, m)
+        if tag == b'fire':
+            if (p2, r2, y2, l2) != (polls, readies, yielded, ln):
+                return 'a wake-up alone polled the source / changed the cache'
+            if len(newly) > 1:
+                return 'source woke more than its last registered waker'
+            for w in newly:
+                woken[w] = True
+            continue
+        ci = who
+        res = r[1]
+        if ci >= k:
+            if (res, p2, r2, y2, l2) != (b'pending', polls, readies, yielded, ln):
+                return 'poll of a handle that does not exist changed something'
+            continue
+        woken[ci] = False
+        pos = len(got[ci])
+        dp, dr, dy = p2 - polls, r2 - readies, y2 - yielded
+        if fin[ci]:
+            if res != [b'ready', b'none'] or dp != 0:
+                return 'finished handle %d: expected Ready(None) without asking the source, got %s with %d source polls' % (ci, sexp.dumps(res), dp)
+            blocked[ci] = False
+        elif pos < ln:
+            # cached: handed the next item in order, the source is not asked
+            if res != [b'ready', [b'some', pos]]:
+                return 'handle %d at position %d with %d cached: expected item %d, got %s (order / loss / duplicate)' % (ci, pos, ln, pos, sexp.dumps(res))
+            if dp != 0:
+                return 'source asked when not needed: handle %d at position %d, %d items cached' % (ci, pos, ln)
+            got[ci].append(pos)
+            blocked[ci] = False
+        else:
+            # at the frontier: the source is asked exactly once
+            if dp != 1:
+                return 'handle %d at the frontier (%d): source polled %d times' % (ci, ln, dp)
+            if res == b'pending':
+                if dr != 0:
+                    return 'handle %d suspended although the source answered' % ci
+                blocked[ci] = True
+            elif res == [b'ready', b'none']:
+                if dr != 1 or dy != 0:
+                    return 'handle %d told None: %d source answers, %d new items' % (ci, dr, dy)
+                fin[ci] = True
+                blocked[ci] = False
+            elif res == [b'ready', [b'some', ln]]:
+                if dr != 1 or dy != 1:
+                    return 'handle %d got item %d: %d source answers, %d new items' % (ci, ln, dr, dy)
+                got[ci].append(ln)
+                blocked[ci] = False
+            else:
+                return 'handle %d at the frontier (%d): got %s (order / loss / duplicate)' % (ci, ln, sexp.dumps(res))
+        for w in newly:
+            woken[w] = True
+        if r2 > readies:
+            lost = [i for i in range(k) if blocked[i] and not woken[i]]
+            if lost:
+                return 'lost wake-up: source answered during the poll of handle %d but waiting handle(s) %s were not woken' % (ci, lost)
+        polls, readies, yielded, ln = p2, r2, y2, l2
+    if len(final) != k:
+        return 'final: expected %d entries' % k
+    for i in range(k):
+        st, seen = final[i]
+        if st != b'fin' or not fin[i]:
+            return 'handle %d is left waiting for ever after a fair drain (lost wake-up): %s' % (i, sexp.dumps(final))
+        if seen != list(range(m)) or got[i] != seen:
+            return 'handle %d saw %s, expected %s in this order, none lost or duplicated' % (i, sexp.dumps(seen), list(range(m)))
+    if k:
+        if yielded != m or readies - yielded != k:
+            return '%d items generated (source has %d), end of source asked %d times for %d handles' % (yielded, m, readies - yielded, k)
+    elif polls:
+        return 'source polled without any handle'
+    return None
+
+
 def oracle_sync(reqs, m, need, to_end, o):
     if len(o) != len(reqs):
         return 'expected %d request results, got %d' % (len(reqs), len(o))
@@ -417,7 +755,7 @@ def oracle_sync(reqs, m, need, to_end, o):
 
 
 def nontrivial(case, out):
-    if ' sync ' in case[:12] or 'pending' in out:
+    if 'sync ' in case[:12] or 'pending' in out:
         return hashlib.sha1(out.encode()).digest()[:10]
     return None
 
@@ -432,11 +770,12 @@ MANIFEST = {
             'queued in pending_wakes with a rescuer (source holds a waker, or a woken consumer at the frontier), and a source answer wakes '
             'all of them (C17_no_lost_wakeup); a variant bounds the number of fair steps of ANY schedule and a fair step is enabled until all '
             'consumers are done (C17_progress). Same for the synchronous iterator. The request loops of bundles.rs refine the handle-level '
-            'system (C17_request_refines). Tied to the code by running the extracted model and the real Bundles/Localization over a scripted '
-            'source with a manual executor on all schedules to completion for small k/scripts plus random long ones.',
+            'system (C17_request_refines). Tied to the code by running the extracted model and the real code over a scripted source with a manual '
+            'executor, both at handle level (one poll_next / next per step on the real AsyncCacheStream / CacheIter) and at request level '
+            '(Bundles / Localization futures), on all schedules to completion for small k/scripts plus random long ones.',
     'note': 'Observed and stated in the theorems, not alarmed: the cache does not remember the end of the source, so every consumer that '
-            'walks to the end polls the (fused) source once more (C17_lazy counts it; C17_end_repull_witness). mod cache is private, so the '
-            'correspondence run is at request-future granularity. Trusted: Coq kernel, extraction, ChunkyVec/RefCell/PinCell/Waker modelled '
+            'walks to the end polls the (fused) source once more (C17_lazy counts it; C17_lazy_single_end_pull_refuted). D18 (empty key list pulls '
+            'the first bundle) is a known finding. Trusted: Coq kernel, extraction, ChunkyVec/RefCell/PinCell/Waker modelled '
             'as list/state/flag, the last-registered-waker contract of the source (property hypothesis).',
     'technique': 'Rocq proof (inductive invariants over a labelled transition system, decreasing variant for progress) + differential '
                  'correspondence check + implementation-only oracle',
